@@ -26,6 +26,7 @@ import OxiddModel.Bcdd.DriverRc
 import OxiddModel.Pointer.Driver
 import OxiddModel.NnfParse.DriverRt
 import OxiddModel.NnfParse.Driver
+import OxiddModel.DimacsParse.Driver
 
 open OxiddModel
 
@@ -64,7 +65,11 @@ def protos : List (String × Proto) := [
   ("nnfparse", OxiddModel.NnfParse.protoRtFixed),
   ("nnfparse-fixed-names", OxiddModel.NnfParse.protoRtFixedNames),
   ("nnfparse-noskip", OxiddModel.NnfParse.protoNoSkip),
-  ("nnfparse-before-fix", OxiddModel.NnfParse.protoRt)
+  ("nnfparse-before-fix", OxiddModel.NnfParse.protoRt),
+  ("dimacsparse", OxiddModel.DimacsParse.protoProposed),
+  ("dimacsparse-before-fix", OxiddModel.DimacsParse.protoBeforeFix),
+  ("dimacsparse-noskip", OxiddModel.DimacsParse.protoNoSkip),
+  ("dimacsparse-before-cofix", OxiddModel.DimacsParse.proto)
 ]
 
 def main (args : List String) : IO UInt32 := do
